@@ -83,6 +83,17 @@ def gen(tier, rng, n_quick=1800):
                     for c in leafdefs:
                         hist += [(1, ("get",)), (1, ("acq", c, "ex", "try")), (1, ("gdrop",))]
                     hist += [(1, ("get",)), (1, ("acq", root, m, "try")), (1, ("gdrop",))]
+                    # and one blocking acquisition at the very end (a call that waits ends the history): a killed
+                    # lock must panic instead of waiting, also when its raw lock was left held
+                    r = rng.random()
+                    if r < 0.45 and leafdefs:
+                        c = rng.choice(leafdefs)
+                        if rng.random() < 0.5:
+                            hist += [(2, ("get",)), (2, ("acq", c, "ex", "guard")), (2, ("gdrop",))]
+                        else:
+                            hist += [(2, ("get",)), (2, ("acq", c, "ex", "scoped", False, [("w", 0)]))]
+                    elif r < 0.6:
+                        hist += [(2, ("get",)), (2, ("acq", root, m, "guard")), (2, ("gdrop",))]
                     f1, fp = [], []
                     if fi == "p_lock":
                         l = rng.choice(locks)
